@@ -56,7 +56,7 @@ func (f *aesHKDF) Read(p []byte) (int, error) {
 		f.buf = append(f.buf[:0], f.prev...)
 		f.buf = append(f.buf, f.info...)
 		f.buf = append(f.buf, f.counter)
-		f.buf = append(f.buf, fixedIV[:aes.BlockSize-x]...)
+		f.buf = append(f.buf, fixedIV[:inputSize-len(f.buf)]...)
 
 		mode := cipher.NewCBCEncrypter(f.block, fixedIV)
 		mode.CryptBlocks(f.buf, f.buf)
